@@ -101,10 +101,35 @@ pub fn run(ctx: &mut RunCtx) -> Result<(), Violation> {
             ));
         }
     }
+    // degenerate RNG draws are outside the property's guarantee of success, but proving must
+    // still return (Ok or Err) and an Ok proof must verify
+    if w.chance(1, 8) {
+        let which = w.usize(14);
+        let bytes = if w.chance(1, 2) { vec![0u8; 64] } else { vec![0xffu8; 64] };
+        let mut rng = ScriptedRng::with_subst(sc.rng_seed ^ 0xD, vec![(which, bytes)]);
+        let env_p = ctx.env(&mut s);
+        ctx.st.fault("rng.degenerate_draw");
+        match crate::seams::guarded(|| deploy::prove(&prover, &sc.prog, &sc.tape, &mut rng, version, &env_p)) {
+            Err(p) => return Err(Violation::new("panic", format!("proving panicked on a degenerate RNG draw (draw {}): {}", which, p))),
+            Ok(Err(_)) => ctx.st.probe("degenerate_draw=>Err"),
+            Ok(Ok((proof, pi))) => {
+                ctx.st.probe("degenerate_draw=>proof");
+                let msg = Msg { proof: proof_bytes(&proof), pi, version };
+                let env_v = ctx.env(&mut s);
+                let d = deliver(ctx, &node, &msg, version, &env_v)?;
+                if !d.accepted() {
+                    return Err(Violation::new("I-valid", format!("a proof produced under a degenerate RNG draw (draw {}) is rejected: {:?}", which, d)));
+                }
+            }
+        }
+    }
     let c = sc.constraints;
     let npot = c.next_power_of_two();
     if c == npot {
         ctx.st.probe("full_domain(c=2^k)");
+        if !matches!(sc.prog.ops.last(), Some(crate::program::Op::Filler(_))) {
+            ctx.st.probe("full_domain_with_a_real_row_last");
+        }
     }
     if (c + 6).next_power_of_two() > npot {
         ctx.st.probe("key_trimmed_for_2^(k+1)_domain_2^k");
